@@ -126,6 +126,7 @@ def sets_state_on_err(ctx, w):
 def drain_all(ctx):
     fn, lv = leaves(ctx, CC + "read")
     n = 0
+    m = 0
     for lf in lv:
         rk = ret_kind(lf)
         if rk is None or rk[0] != "Ok":
@@ -138,9 +139,22 @@ def drain_all(ctx):
         for (t, c, _b) in lf.conds:
             if t[0] == "discr" and is_call(look(t[1]), conn.P + "pop_parsed_request") and option_is_some(c) is False:
                 drained = True
+        via = srv.from_fn_drains(ctx.facts, lf, ("extend", "collect"))
+        if via is not None:
+            # vec.extend(from_fn(pop)) / from_fn(pop).collect(): everything popped goes into that vector, which must be the one returned
+            tgt = look(via[4][2][0]) if last_seg(via[3]) == "extend" else None
+            ret = look(rk[1])
+            while ret[0] == "mut":
+                ret = look(ret[1])
+            if tgt is not None:
+                while tgt[0] == "mut":
+                    tgt = look(tgt[1])
+                drained = norm(tgt) == norm(ret)
+            else:
+                drained = norm(look(via[4])) == norm(look(rk[1]))
+            m += 1 if drained else 0
         ctx.ob("R08.6", "read|queue-drained", drained, "a successful read returns only after pop_parsed_request() returned None", fn.loc(lf.bb))
     # in the loop, every popped request is pushed onto the vector that is returned
-    m = 0
     for lf in lv:
         if lf.kind != "loop":
             continue
